@@ -63,7 +63,8 @@ EXPECTED_PROBES = {
             'file_order_differs_from_sorted_names',
             'cbin_index_list_not_implemented'],
     'C02': ['reflected_operator', 'cols_before_arith', 'cols_after_arith', 'depth_ge_3',
-            'sibling_reread', 'integer_division'],
+            'sibling_reread', 'integer_division', 'same_operator_twice_in_a_row',
+            'equal_cols_on_two_handles'],
     'C03': ['spike_on_chunk_bound', 'spike_at_0', 'spike_at_last', 'window_exceeds_start',
             'window_exceeds_end', 'window_longer_than_recording', 'unsigned_spikes',
             'minus_one_channel', 'multi_chunk_export', 'cbin_export_cached', 'odd_window',
@@ -230,6 +231,15 @@ def gen(rng, prop, tier):
                         k = None
                     elif rng.random() < 0.55:
                         k = rng.choice([1, 2, 3, -1, -2, 5, 0, 7])
+                        if rng.random() < 0.25:
+                            # large scalars: each fits the sample dtype, two in a row may not
+                            k = rng.choice({'int16': [20000, 30000, -20000, 200],
+                                            'uint8': [200, 100, 150, 16],
+                                            'int32': [2 ** 30, 50000, -2 ** 30]}.get(
+                                                cfg['dtype'], [20000, 3, 7]))
+                            if ops and ops[-1].get('op') == 'derive' and rng.random() < 0.6:
+                                o = ops[-1]['o'] if ops[-1]['o'] in ('add', 'mul') else o
+                                h = nh - 1 if ops[-1]['o'] in ('add', 'mul') else h
                     else:
                         k = rng.choice([0.5, 2.5, -1.5, 1.0, 3.0, -0.25])
                     ops.append({'op': 'derive', 'h': h, 'o': o, 'k': k})
@@ -569,6 +579,8 @@ def _execute(plan, ctx, cfg, prop):
     cols_seen = {0: False}
     arith_seen = {0: False}
     last_read = {}
+    last_derive = {}
+    cols_used = {}
 
     def do_read(step, h, item, cols, clause):
         it = dec_item(item)
@@ -645,6 +657,9 @@ def _execute(plan, ctx, cfg, prop):
                     H2 = ctx.real('derive', _apply_lazy, handles[h], op['o'], op['k'])
                     if op['o'].startswith('r'):
                         ctx.probe('reflected_operator')
+                    if last_derive.get(h) == op['o']:
+                        ctx.probe('same_operator_twice_in_a_row')
+                    last_derive[new] = op['o']
                     if op['o'] in ('floordiv', 'rfloordiv', 'truediv', 'rtruediv') \
                             and E.dtype.kind in 'iu':
                         ctx.probe('integer_division')
@@ -654,6 +669,10 @@ def _execute(plan, ctx, cfg, prop):
                     arith_seen[new] = True
                 else:
                     co = dec_cols(op['cols'])
+                    key = str(op['cols'])
+                    if key in cols_used and cols_used[key] != h:
+                        ctx.probe('equal_cols_on_two_handles')
+                    cols_used[key] = h
                     E2 = E[:, co]
                     H2 = ctx.real('select', lambda: handles[h][:, co])
                     if arith_seen[h]:
